@@ -509,6 +509,9 @@ func (env *rEnv) eval(n *rNode) Value {
 			}
 			return l.items[idx]
 		}
+		if mv, ok := base.(VMap); ok {
+			return env.mapIndex(mv, env.eval(n.Args[1]), n)
+		}
 		if bs, ok := base.(VSym); ok {
 			it := env.term(n.Args[1])
 			switch bs.T.Sort {
